@@ -79,6 +79,7 @@ class Typing:
         self.attr = {}  # (mod, class) -> {attr: type}
         self.ret = {}  # FunctionDef -> type
         self.seed_names = {"ts": TS, "tree_sequence": TS, "contmpr_ts": TS, "input_ts": TS, "dated_ts": TS, "snipped_ts": TS}
+        self.rets = {}  # FunctionDef -> all return types seen
         self.conflicts = set()
         self.funcs = [f for _, _, f in repo.all_funcs()]
         for f in self.funcs:
@@ -193,6 +194,20 @@ class Typing:
             return f"Iter:{t}" if t else None
         return None
 
+    def ty_all(self, f, e):
+        """all alternative types of a call whose callee returns values of different tskit types"""
+        if isinstance(e, ast.Call):
+            if isinstance(e.func, ast.Name) and e.func.id in ("tqdm", "reversed", "list", "sorted") and e.args:
+                return self.ty_all(f, e.args[0])
+            out = []
+            for t in self.repo.resolve_call(f, e):
+                if isinstance(t, ast.FunctionDef):
+                    out += self.rets.get(t, [])
+            if out:
+                return out
+        t = self.ty(f, e)
+        return [t] if t else []
+
     def _comp_elt_type(self, f, e):
         # bind comprehension targets temporarily
         saved = dict(self.env[f])
@@ -239,7 +254,13 @@ class Typing:
                         for tg in n.targets:
                             changed |= self._bind(f, tg, t)
                     elif isinstance(n, (ast.For, ast.comprehension)):
-                        changed |= self._bind(f, n.target, elem(self.ty(f, n.iter)))
+                        t = elem(self.ty(f, n.iter))
+                        alts = [elem(x) for x in self.ty_all(f, n.iter)] or [t]
+                        if isinstance(n.target, (ast.Tuple, ast.List)):
+                            tt = [x for x in alts if x and x.startswith(("Tuple:", "Row:edgediff"))]
+                        else:
+                            tt = [x for x in alts if x and not x.startswith("Tuple:")]
+                        changed |= self._bind(f, n.target, (tt or [t])[0])
                     elif isinstance(n, ast.With):
                         for it in n.items:
                             if it.optional_vars is not None:
@@ -248,6 +269,9 @@ class Typing:
                         t = self.ty(f, n.value)
                         if t and f not in self.ret:
                             self.ret[f] = t
+                            changed = True
+                        if t and t not in self.rets.setdefault(f, []):
+                            self.rets[f].append(t)
                             changed = True
                     elif isinstance(n, ast.Call):
                         for tgt in self.repo.resolve_call(f, n):
